@@ -174,6 +174,7 @@ def _remove_unwanted_expression_nodes(parent_node, pos, until_pos):
     is_suite_part = typ in ('suite', 'file_input')
     if typ in EXPRESSION_PARTS or is_suite_part:
         nodes = parent_node.children
+        start_index = end_index = None
         for i, n in enumerate(nodes):
             if n.end_pos > pos:
                 start_index = i
@@ -193,6 +194,9 @@ def _remove_unwanted_expression_nodes(parent_node, pos, until_pos):
                     else:
                         break
                 break
+        if start_index is None or end_index is None or start_index > end_index:
+            # The selection covers no operand (only blanks, an operator, nothing)
+            raise RefactoringError('Cannot extract anything from that')
         nodes = nodes[start_index:end_index + 1]
         if not is_suite_part:
             nodes[0:1] = _remove_unwanted_expression_nodes(nodes[0], pos, until_pos)
@@ -210,7 +214,10 @@ def extract_function(inference_state, path, module_context, name, pos, until_pos
     nodes = _find_nodes(module_context.tree_node, pos, until_pos)
     assert len(nodes)
 
-    is_expression, _ = _is_expression_with_error(nodes)
+    is_expression, message = _is_expression_with_error(nodes)
+    if not is_expression and until_pos is None:
+        # Without a range only an expression can be extracted.
+        raise RefactoringError(message)
     context = module_context.create_context(nodes[0])
     is_bound_method = context.is_bound_method()
     params, return_variables = list(_find_inputs_and_outputs(module_context, context, nodes))
@@ -241,6 +248,8 @@ def extract_function(inference_state, path, module_context, name, pos, until_pos
 
         remaining_prefix, code_block = _suite_nodes_to_string(nodes, pos)
         after_leaf = nodes[-1].get_next_leaf()
+        if after_leaf is None:
+            raise RefactoringError('Cannot extract anything from that')
         first, second = _split_prefix_at(after_leaf, until_pos[0])
         code_block += first
 
